@@ -8,8 +8,11 @@ props = [json.loads(l)["id"] for l in open(os.path.join(root, "properties.jsonl"
 na = json.load(open(os.path.join(root, "manifest.d", "_not_applicable.json")))
 base = json.load(open(os.path.join(root, "manifest.d", "_base.json")))
 checks = []
+enabled = json.load(open(os.path.join(root, "manifest.d", "_enabled.json")))   # reviewed by the coordinator
 for f in sorted(glob.glob(os.path.join(root, "manifest.d", "C*.json"))):
-    checks.append(json.load(open(f)))
+    c = json.load(open(f))
+    if c["property_id"] in enabled:
+        checks.append(c)
 claimed = {c["property_id"] for c in checks}
 base["checks"] = checks
 base["not_applicable"] = [{"property_id": p, "reason": na.get(p, "check not built yet in this round")}
